@@ -39,3 +39,19 @@ Print Assumptions C13_enumerator_ordered_union.
 Theorem C13_enumerator_each_once : forall l, EnumProof.sorted_t l -> List.NoDup l.
 Proof. exact EnumProof.sorted_t_nodup. Qed.
 Print Assumptions C13_enumerator_each_once.
+
+(* refinement: with the surviving, renumbered (synonym, document) pairs behind every input entry,
+   the term loop over the enumerator collects for every left-hand term exactly the set of pairs the
+   executable specification SpecMerge.merge_thes holds (both sides as the sorted duplicate-free list
+   fold_right pins []; the algorithm keeps them in a bitmap).  SpecMerge.merge_thes is what the
+   correspondence run compares with the thesauri of the files zapx writes. *)
+Require ZV.MergeLoop ZV.MergeRefine ZV.ThesMergeRefine ZV.SpecMerge ZV.Spec.
+Theorem C13_merge_algorithm_refines_spec :
+  forall (pl : nat -> N -> list ThesMergeRefine.pair) its cms th k,
+  List.Forall EnumProof.asc its -> EnumProof.nozero its ->
+  MergeRefine.rel_from ThesMergeRefine.pair pl 0 its (ThesMergeRefine.tgs_of cms th) ->
+  List.Forall (fun tg : list (Spec.str * list ThesMergeRefine.pair) * (list ThesMergeRefine.pair -> list ThesMergeRefine.pair) => MergeRefine.skeys (fst tg)) (ThesMergeRefine.tgs_of cms th) ->
+  ThesMergeRefine.norm (MergeLoop.assoc ThesMergeRefine.pair k (MergeLoop.merge_dict ThesMergeRefine.pair pl its)) =
+  MergeRefine.oget ThesMergeRefine.pair (Spec.mget k (SpecMerge.merge_thes cms th)).
+Proof. exact ThesMergeRefine.C13_merge_algorithm_refines_spec. Qed.
+Print Assumptions C13_merge_algorithm_refines_spec.
